@@ -347,7 +347,7 @@ class ThermalProperties(ThermalPropertiesBase):
             self._zero_point_energy = 0.0
         else:
             for freqs, w in zip(self._frequencies, self._weights):
-                positive_fs = np.extract(freqs > 0.0, freqs)
+                positive_fs = np.extract(freqs > self._cutoff_frequency, freqs)
                 zp_energy += np.sum(positive_fs) * w / 2
             self._zero_point_energy = zp_energy / np.sum(self._weights) * EvTokJmol
 
